@@ -44,7 +44,11 @@ RULE = ("cases come from one PRNG seeded by VERIF_SEED plus fixed catalogues: ev
         "(thorough) leaves with every match subset; sampled trees up to 5000 leaves at power-of-two boundaries; every "
         "single-bit alteration of every hash, flag byte, the count and the root, and every dropped / extra hash, of "
         "sampled proofs; totals at every power of two ± 1 up to 2^32 (sizing expressions only); exponents 0..35 × "
-        "mantissa boundaries; time differentials across both clamps. A case is non-trivial when its input is not "
+        "mantissa boundaries; time differentials across both clamps; the last leaf matched at every size 1..41 (thorough 1..300), "
+        "equal last ids, the duplicated-last-leaf shape; object-reuse histories (one list through merkle_root / "
+        "merkle_parent_level repeatedly, one MerkleBlock validated again after every field edit with proved_txs() before, "
+        "between and after, one MerkleTree populated several times including after an exception, one Block queried twice after "
+        "every field edit), every query made twice and compared with the model on the current state. A case is non-trivial when its input is not "
         "empty; distinct = distinct (operation, input) pairs")
 CLAUSES = {
     "merkle root = Bitcoin's (pairwise double-SHA256, last element of odd levels duplicated); calling it twice gives the same root":
@@ -52,7 +56,8 @@ CLAUSES = {
     "tree sizing = integer ceil(log2 total)":
         "proved (tree_depth_ceil_log2, tree_depth_eq_spec, level_sizes); float form = finding F17a, fixed (F17a_witness)",
     "populate_tree (cursor machine, error branches) = BIP37 recursive parsing":
-        "proved relative to hash (populate_eq_spec, populate_never_out_of_fuel)",
+        "proved relative to hash (populate_eq_spec, populate_never_out_of_fuel); a reused MerkleTree object: tree_reuse_fresh, "
+        "tree_reuse_finished; flag bytes <-> bits: bit_field_roundtrip; merkleblock message: merkleblock_parse_encode",
     "BIP37 completeness: for every block size and match set the built proof validates and yields exactly the matched ids in order":
         "proved relative to hash (bip37_complete, bip37_complete_tree)",
     "BIP37 soundness: any validating proof, honest or altered, yields only ids of the block":
@@ -415,6 +420,267 @@ def is_valid_line(op, root, total, hashes, flags):
     return f"{op} {xb(root)} {total} {blist(hashes)} {xb(flags)}"
 
 
+# ------------------------------------------------------------------------------- object-reuse histories
+# A history runs a sequence of operations on ONE object of the real code.  Every query is made twice; each
+# observation is compared with the model evaluated on the object's CURRENT state (its fields as they are read right
+# before the query), so a cached / stale / doubled result on a reused object shows up as a mismatch.
+# run_history((kind, spec)) -> list of checks (label, request lines, post, implementation answer, determined)
+#   post "id":      expected = answer to lines[0]
+#   post "proved":  expected = the proved-ids part of the answer to lines[0] (skipped when that answer is REJECT)
+#   post "root":    expected = first token of the answer to lines[0]
+def _q2(fn):
+    """ask twice"""
+    out = []
+    for _ in range(2):
+        try:
+            out.append(fn())
+        except Exception:
+            out.append(REJECT)
+    return out
+
+
+def _hist_root(spec):
+    import buidl.helper as H
+    checks = []
+    ids = [unx(x) for x in spec["ids"]]
+    l = list(ids)
+    for rnd in range(3):           # merkle_root three times on the same list object
+        before = list(l)
+        try:
+            r = xb(H.merkle_root(l))
+        except Exception:
+            r = REJECT
+        checks.append((f"root#{rnd}", [f"merkle_root_spec {blist(before)}"], "root", r, True))
+        checks.append((f"root#{rnd}:list", [f"merkle_root {blist(before)}"], "id",
+                       REJECT if r == REJECT else f"{r} {blist(l)}", False))
+    l2 = list(ids)                 # merkle_parent_level first (it mutates the list), then merkle_root on that list
+    before = list(l2)
+    try:
+        p = H.merkle_parent_level(l2)
+        a = f"{blist(p)} {blist(l2)}"
+    except Exception:
+        a = REJECT
+    checks.append(("level", [f"merkle_parent_level {blist(before)}"], "id", a, False))
+    for rnd in range(2):
+        before = list(l2)
+        try:
+            r = xb(H.merkle_root(l2))
+        except Exception:
+            r = REJECT
+        checks.append((f"root-after-level#{rnd}", [f"merkle_root_spec {blist(before)}"], "root", r, True))
+    return checks
+
+
+def _hist_merkleblock(spec):
+    import buidl.block as B
+    import buidl.merkleblock as MB
+    hdr = B.Block(1, bytes(32), unx(spec["root"]), 0, b"\xff\xff\x00\x1d", bytes(4))
+    mb = MB.MerkleBlock(hdr, spec["total"], [unx(h) for h in spec["hashes"]], unx(spec["flags"]))
+    checks = []
+    last = None     # request line of the last is_valid call
+
+    def cur(op):
+        return is_valid_line(op, mb.header.merkle_root, mb.total, mb.hashes, mb.flags)
+
+    def q_proved(tag):
+        for k, a in enumerate(_q2(lambda: "P " + blist(mb.proved_txs()))):
+            if last is None:
+                checks.append((f"{tag}:proved#{k}", [], "const:P 0", a, True))
+            else:
+                checks.append((f"{tag}:proved#{k}", [last], "proved", a, True))
+
+    q_proved("start")
+    for si, st in enumerate(spec["steps"]):
+        if st[0] == "valid":
+            for k in range(2):
+                line = cur("extract_spec")
+                try:
+                    ok = mb.is_valid()
+                    a = f"{1 if ok else 0} {blist(mb.proved_txs())}"
+                except Exception:
+                    a = REJECT
+                last = line
+                checks.append((f"s{si}:valid#{k}", [line], "id", a, True))
+                checks.append((f"s{si}:valid#{k}:model", [cur("is_valid")], "id", a, False))
+                q_proved(f"s{si}.{k}")
+        elif st[0] == "flags":
+            mb.flags = unx(st[1])
+        elif st[0] == "hashes":
+            mb.hashes = [unx(h) for h in st[1]]
+        elif st[0] == "total":
+            mb.total = st[1]
+        elif st[0] == "root":
+            mb.header.merkle_root = unx(st[1])
+        q_proved(f"s{si}")
+    return checks
+
+
+def _hist_tree(spec):
+    import buidl.merkleblock as MB
+    outs = []
+    try:
+        tree = MB.MerkleTree(spec["total"])
+    except Exception:
+        return [("tree", ["tree_sizing 1"], "skip", "constructor raised", False)]
+    toks = []
+    for bits, hashes in spec["calls"]:
+        hs = [unx(h) for h in hashes]
+        toks.append(f"m{bits} {blist(hs)}")
+        try:
+            tree.populate_tree([int(c) for c in bits], list(hs))
+            o = "ok"
+        except Exception:
+            o = REJECT
+        try:
+            r = tree.root()
+            root = "none" if r is None else xb(r)
+        except Exception:
+            root = REJECT
+        outs.append(f"{o} {root} {blist(tree.proved_txs)}")
+    line = f"tree_hist {spec['total']} {len(spec['calls'])} " + " ".join(toks)
+    return [("tree", [line], "id", " | ".join(outs), False)]
+
+
+def _hist_block(spec):
+    import buidl.block as B
+    import buidl.helper as H
+    f = spec["fields"]
+    b = B.Block(f[0], unx(f[1]), unx(f[2]), f[3], unx(f[4]), unx(f[5]))
+    checks = []
+
+    def ask(tag):
+        toks = fmt_header_toks(b)
+        for k, a in enumerate(_q2(lambda: xb(b.hash()))):
+            checks.append((f"{tag}:hash#{k}", ["hdr_hash " + toks], "id", a, True))
+        for k, a in enumerate(_q2(lambda: "1" if b.check_pow() else "0")):
+            checks.append((f"{tag}:check_pow#{k}", ["check_pow " + toks], "id", a, True))
+        for k, a in enumerate(_q2(lambda: fmt_target(b.bits, b.target()))):
+            checks.append((f"{tag}:target#{k}", [f"bits_to_target {xb(b.bits)}"], "id", a, True))
+        for k, a in enumerate(_q2(lambda: xb(b.id().encode()))):
+            checks.append((f"{tag}:id#{k}", ["hdr_hash " + toks], "hexid", a, True))
+    ask("start")
+    for si, (name, val) in enumerate(spec["edits"]):
+        setattr(b, name, unx(val) if isinstance(val, str) else val)
+        ask(f"s{si}:{name}")
+    return checks
+
+
+HISTORIES = {"hist:root": _hist_root, "hist:merkleblock": _hist_merkleblock, "hist:tree": _hist_tree,
+             "hist:block": _hist_block}
+
+
+def run_history(ks):
+    kind, spec = ks
+    return HISTORIES[kind](spec)
+
+
+def expected_of(post, answers):
+    """the model-side expectation of a history check from the driver's answers to its request lines; None = not compared"""
+    if post.startswith("const:"):
+        return post[6:]
+    if post == "skip":
+        return None
+    a = answers[0]
+    if post == "id":
+        return a
+    if post == "root":
+        return a if a == REJECT else a.split(" ")[0]
+    if post == "proved":
+        return None if a == REJECT else "P " + a.split(" ", 1)[1]
+    if post == "hexid":
+        return a if a == REJECT else xb(a[1:].encode())
+    raise MachineryError(f"unknown post {post}")
+
+
+def gen_histories(ctx, rng):
+    import buidl.helper as H
+    import buidl.block as B
+    hist = []
+    # merkle_root / merkle_parent_level on one list object: every size 0..17 (odd and even), then sampled
+    for n in list(range(0, 18)) + [31, 32, 33, 64, 65] + [rng.randrange(18, 200) for _ in range(ctx.n(4))]:
+        ids = [rbytes(rng, 32) for _ in range(n)]
+        if n >= 2 and rng.random() < 0.3:
+            ids[-1] = ids[-2]
+        hist.append(("hist:root", {"ids": [xb(i) for i in ids]}))
+    # one MerkleBlock object validated again and again, fields changed in between
+    for n in [1, 2, 3, 4, 5, 7, 8, 9, 16, 17] + [rng.randrange(2, 60) for _ in range(ctx.n(6))]:
+        ids = [rbytes(rng, 32) for _ in range(n)]
+        m1 = [rng.random() < 0.5 for _ in range(n)]
+        m1[-1] = True                     # last leaf matched (at odd sizes its node is paired with itself)
+        m2 = [rng.random() < 0.3 for _ in range(n)]
+        t1, h1, f1, r1 = py_build(ids, m1)
+        t2, h2, f2, r2 = py_build(ids, m2)
+        ids3 = [rbytes(rng, 32) for _ in range(rng.randrange(1, 12))]
+        m3 = [rng.random() < 0.6 for _ in ids3]
+        t3, h3, f3, r3 = py_build(ids3, m3)
+        bad = bytearray(h1[0])
+        bad[5] ^= 4
+        steps = [("valid",), ("flags", xb(f2)), ("valid",), ("hashes", [xb(h) for h in h2]), ("valid",),
+                 ("hashes", [xb(bytes(bad))] + [xb(h) for h in h1[1:]]), ("flags", xb(f1)), ("valid",),
+                 ("hashes", [xb(h) for h in h1]), ("valid",), ("hashes", [xb(h) for h in h1[:-1]]), ("valid",),
+                 ("total", t3), ("hashes", [xb(h) for h in h3]), ("flags", xb(f3)), ("valid",), ("root", xb(r3[::-1])), ("valid",),
+                 ("total", t1), ("hashes", [xb(h) for h in h1]), ("flags", xb(f1)), ("root", xb(r1[::-1])), ("valid",)]
+        hist.append(("hist:merkleblock", {"root": xb(r1[::-1]), "total": t1, "hashes": [xb(h) for h in h1], "flags": xb(f1),
+                                          "steps": steps}))
+    # one MerkleTree object populated more than once
+    for n in [1, 2, 3, 5, 8, 11] + [rng.randrange(2, 40) for _ in range(ctx.n(6))]:
+        ids = [rbytes(rng, 32) for _ in range(n)]
+        m = [rng.random() < 0.5 for _ in range(n)]
+        t, hs, fl, _ = py_build(ids, m)
+        bits = "".join(str(b) for b in H.bytes_to_bit_field(fl))
+        ih = [h[::-1] for h in hs]
+        xh = [xb(h) for h in ih]
+        cutb, cuth = rng.randrange(0, len(bits) + 1), rng.randrange(0, len(xh) + 1)
+        calls = rng.choice([
+            [(bits, xh), (bits, xh)],                                  # the same proof twice
+            [(bits, xh), ("", [])],                                    # then nothing
+            [(bits, xh), ("0" * 8, [])], [(bits, xh), ("01", [])],
+            [(bits[:cutb], xh[:cuth]), (bits[cutb:], xh[cuth:])],      # interrupted by an exception, then the rest
+            [(bits[:cutb], xh[:cuth]), (bits, xh)],                    # interrupted, then the whole proof again
+            [("", []), (bits, xh), (bits, xh)],
+            [(bits, xh[:-1]), (bits, xh[-1:])],
+        ])
+        hist.append(("hist:tree", {"total": t, "calls": calls}))
+    hist.append(("hist:tree", {"total": 0, "calls": [("1", [xb(bytes(32))]), ("", [])]}))
+    # one Block object: hash / check_pow / target / id asked twice, again after every field edit
+    for hx in [B.GENESIS_BLOCK_MAINNET_HEX, B.GENESIS_BLOCK_REGTEST_HEX] + [None] * ctx.n(4):
+        if hx:
+            h = B.Block.parse_header(io.BytesIO(bytes.fromhex(hx)))
+            fields = [h.version, xb(h.prev_block), xb(h.merkle_root), h.timestamp, xb(h.bits), xb(h.nonce)]
+        else:
+            fields = [rng.getrandbits(32), xb(rbytes(rng, 32)), xb(rbytes(rng, 32)), rng.getrandbits(32),
+                      xb(bytes.fromhex("ffff7f20")), xb(rbytes(rng, 4))]
+        edits = [("nonce", xb(rbytes(rng, 4))), ("bits", xb(bytes.fromhex("ffff7f20"))), ("nonce", xb(rbytes(rng, 4))),
+                 ("version", rng.getrandbits(31)), ("timestamp", rng.getrandbits(32)), ("merkle_root", xb(rbytes(rng, 32))),
+                 ("prev_block", xb(rbytes(rng, 32))), ("bits", xb(bytes.fromhex("ffff001d"))), ("bits", xb(bytes.fromhex("ffff7f22"))),
+                 ("nonce", fields[5]), ("bits", fields[4]), ("version", fields[0]), ("timestamp", fields[3]),
+                 ("merkle_root", fields[2]), ("prev_block", fields[1])]      # back to the initial header
+        hist.append(("hist:block", {"fields": fields, "edits": edits}))
+    return hist
+
+
+def check_histories(ctx, drv, hist):
+    """run the histories on the real code, ask the model about every current state, compare"""
+    rec = ctx.rec
+    runs = pmap(run_history, hist, workers=ctx.workers, chunksize=2)
+    reqs = sorted({l for checks in runs for (_, lines, _, _, _) in checks for l in lines})
+    ans = dict(zip(reqs, batch_parallel(drv, reqs, workers=ctx.workers)))
+    for (kind, spec), checks in zip(hist, runs):
+        for label, lines, post, impl, determined in checks:
+            want = expected_of(post, [ans[l] for l in lines])
+            if want is None:
+                rec.count(kind + ":not-compared")
+                continue
+            case = {"history": kind, "spec": spec, "check": label}
+            if impl == want:
+                rec.ok(kind, (repr(spec)[:200], label))
+            elif determined:
+                rec.violation(kind, case, impl, want, note=label)
+            else:
+                rec.disagreement(kind, case, impl, want, note=label)
+        rec.sample(kind, {"spec": spec, "checks": len(checks)}, limit=1)
+
+
 _ALT = {}
 
 
@@ -576,6 +842,35 @@ def run(ctx):
         lines.append(("extract_spec:honest", is_valid_line("extract_spec", root[::-1], total, hashes, flags)))
         preds.append(("complete", {"ids": [xb(i) for i in ids], "matches": "".join("1" if m else "0" for m in matches)}))
 
+    # ---- the last leaf matched, every size 1..41 (thorough: 1..300; odd sizes: its node is paired with itself on the way up, the id must
+    #      be yielded once, in order); the last two ids equal; and the duplicated-last-leaf shape (CVE-2012-2459): the proof
+    #      of ids + [ids[-1]] with count n + 1 has the same root as the block of n ids
+    for n in range(1, ctx.n(42, 301)):
+        ids = [rbytes(rng, 32) for _ in range(n)]
+        variants = [[False] * (n - 1) + [True], [True] + [False] * max(0, n - 2) + ([True] if n > 1 else [])]
+        if n >= 3:
+            variants.append([rng.random() < 0.3 for _ in range(n - 2)] + [True, True])
+        for matches in variants:
+            total, hashes, flags, root = py_build(ids, matches)
+            lines.append(("is_valid:last-leaf", is_valid_line("is_valid", root[::-1], total, hashes, flags)))
+            lines.append(("extract_spec:last-leaf", is_valid_line("extract_spec", root[::-1], total, hashes, flags)))
+            preds.append(("complete", {"ids": [xb(i) for i in ids], "matches": "".join("1" if m else "0" for m in matches)}))
+        if n >= 2:
+            ids2 = ids[:-1] + [ids[-2]]          # a block whose last two ids are equal
+            m2 = [False] * (n - 2) + [True, True]
+            total, hashes, flags, root = py_build(ids2, m2)
+            lines.append(("is_valid:equal-last-ids", is_valid_line("is_valid", root[::-1], total, hashes, flags)))
+            lines.append(("extract_spec:equal-last-ids", is_valid_line("extract_spec", root[::-1], total, hashes, flags)))
+        if n % 2 == 1:
+            root_n = py_levels([i[::-1] for i in ids])[-1][0]
+            dup = ids + [ids[-1]]
+            total, hashes, flags, root = py_build(dup, [False] * (n - 1) + [True, True])
+            if root == root_n:
+                lines.append(("is_valid:dup-last-leaf", is_valid_line("is_valid", root_n[::-1], total, hashes, flags)))
+                lines.append(("extract_spec:dup-last-leaf", is_valid_line("extract_spec", root_n[::-1], total, hashes, flags)))
+                preds.append(("sound", proof_case(ids, total, hashes, flags, root_n[::-1], must_fail=False, finding="F17b",
+                                                  why=f"count {n} -> {n + 1} with the last id duplicated", kind="alter:count")))
+
     # the harness builder agrees with the Lean specification's builder
     for ids, matches, (total, hashes, flags) in build_checks:
         lines.append(("build", ("build " + bits_tok(matches) + " " + blist(ids),
@@ -584,7 +879,7 @@ def run(ctx):
     _dbg(ctx, 'trees built')
     # ---- alterations of sampled proofs (compact descriptors, expanded in the workers: see apply_alteration)
     alter_src = []
-    for n in [1, 2, 3, 4, 5, 6, 7, 8, 9, 12, 16, 21] + [rng.randrange(2, 40) for _ in range(ctx.n(4, 40))]:
+    for n in [1, 2, 3, 4, 5, 7, 8, 12, 16] + [rng.randrange(2, 40) for _ in range(ctx.n(2, 40))]:
         ids = [rbytes(rng, 32) for _ in range(n)]
         matches = [rng.random() < 0.4 for _ in range(n)]
         if not any(matches):
@@ -771,6 +1066,8 @@ def run(ctx):
         for c in variants:
             lines.append(("headers_valid", "headers_valid " + " ".join([str(len(c))] + [fmt_header_toks(h) for h in c])))
 
+    check_histories(ctx, drv, gen_histories(ctx, rng))
+    _dbg(ctx, 'histories checked')
     _dbg(ctx, f'{len(lines)} lines generated')
     # ---- run both sides
     reqs = [l if isinstance(l, str) else l[0] for _, l in lines]
@@ -833,6 +1130,13 @@ def canon_bool(fn):
 def replay(ctx, v):
     """re-execute one recorded violation exactly; True if it still violates"""
     case = v["case"]
+    if "history" in case:
+        drv = ctx.driver("drv_c17")
+        for label, lines, post, impl, _ in run_history((case["history"], case["spec"])):
+            if label == case["check"]:
+                want = expected_of(post, [drv.one(l) for l in lines])
+                return want is not None and impl != want
+        return False
     if "line" in case:
         return impl_line(case["line"]) != ctx.driver("drv_c17").one(case["line"])
     ok, _, _ = eval_pred((case["pred"], case))
